@@ -47,6 +47,17 @@ def instances(tier, seed):
     for m in ("RKF45", "Cash-Karp45"):
         out.append(dict(op="adaptive", method=m, max_trials=2, label="adaptive %s: accept/reject bookkeeping (<= 2 trials)" % m, key="adaptive/%s" % m, run_opts=dict(max_paths=6000)))
     out.append(dict(op="dispatch", label="Mps.evolve dispatch table and normalisation switch", key="dispatch"))
+    # the real projector-splitting sweeps of the chain with the local Krylov propagator replaced by a contract stub
+    chains = [(("e", "e"), (1, 2, 1)), (("e", "e", "e"), (1, 2, 2, 1))]
+    if tier == "thorough":
+        chains += [(("e", "w", "e"), (1, 2, 2, 1)), (("e", "e", "e", "e"), (1, 2, 2, 2, 1))]
+    for kinds, bonds in chains:
+        for method in ("tdvp_ps", "tdvp_ps2"):
+            for start in ("left", "right"):
+                for local in ("arbitrary", "identity"):
+                    for imag in ((False, True) if (local == "arbitrary" and len(kinds) == 3) or tier == "thorough" else (False,)):
+                        out.append(dict(op="tdvp_sweep", kinds=kinds, bonds=bonds, method=method, start=start, local=local, imag=imag, run_opts=dict(budget_s=120.0),
+                                        label="chain %s sweep %s centre starts %s local=%s imag=%s" % (method, "".join(kinds), start, local, imag), key="sweep/%s" % method))
     return out
 
 
@@ -106,6 +117,146 @@ def rk_reference(tab, H_of_t, y, tau, t0):
     return out
 
 
+def _chain(ts):
+    res = np.ones((1, 1), dtype=object if any(np.asarray(t).dtype == object for t in ts) else complex)
+    for t in ts:
+        t = np.asarray(t)
+        res = np.tensordot(res, t, axes=([-1], [0]))
+        res = res.reshape(-1, t.shape[-1])
+    return res[:, 0]
+
+
+def h_tdvp_sweep(ctx, P):
+    """Mps.evolve with the one-/two-site projector-splitting scheme, local propagator = contract stub (arbitrary output, or the identity).
+    Obligations: at EVERY local step the operator handed to the propagator is the projection of H onto that tangent direction of the state as
+    it is at that moment (environment freshness, gauge and label bookkeeping); local time steps are -+ i dt/2 and sum to -i dt per site and
+    +i dt per bond; with the identity as local propagator the sweep returns the state it started from."""
+    from renormalizer.mps import mps as mpsmod
+    from renormalizer.utils import EvolveConfig, EvolveMethod, CompressConfig, CompressCriteria
+    from symnum import stubs
+    from checks.c08 import sym_mpo
+    model = lib.make_model(P["kinds"])
+    n = model.nsite
+    qn = [[[0]]] + [[[0], [1]] for _ in range(n - 1)] + [[[0]]]
+    qnidx = 0 if P["start"] == "left" else n - 1
+    psi = lib.build_mps(ctx, "a", model, P["bonds"], [np.array(q) for q in qn], [1], qnidx, to_right=(qnidx == 0), kind="real", coeff="one")
+    psi.evolve_config = EvolveConfig(getattr(EvolveMethod, P["method"]))
+    psi.compress_config = CompressConfig(CompressCriteria.fixed, max_bonddim=16)
+    H = sym_mpo(ctx, "o", model, n)
+    Hd = lib.dense_op(lib.tensors(H))
+    v0 = lib.dense_of(psi)
+    tau = ctx.real("tau", 0.2)
+    ctx.assume(ctx.lt(0, tau), "tau > 0")
+    dt = tau * (-1j) if P["imag"] else tau
+    identity = P["local"] == "identity"
+    cur = {}
+    log = []
+    conds = []
+    cnt = [0]
+    real_env, real_hop, real_expm = mpsmod.Environ, mpsmod.hop_expr, mpsmod.expm_krylov
+
+    def env_wrapper(mps_, mpo_, *a, **k):
+        cur["mps"] = mps_
+        return real_env(mps_, mpo_, *a, **k)
+
+    def same_array(x, y):
+        x, y = np.asarray(getattr(x, "array", x)), np.asarray(getattr(y, "array", y))
+        if x.shape != y.shape:
+            return False
+        if x.dtype == object and y.dtype == object:
+            return all(p_ is q_ for p_, q_ in zip(x.ravel(), y.ravel()))
+        return bool(np.shares_memory(x, y))
+
+    def hop_wrapper(l_array, r_array, mo, shape, *a, **k):
+        cur["kind"] = len(mo)
+        cur["shape"] = tuple(shape)
+        cur["first"] = None
+        if len(mo):
+            hits = [i for i in range(n) if same_array(H[i], mo[0])]
+            cur["first"] = hits[0] if len(hits) == 1 else None
+        return real_hop(l_array, r_array, mo, shape, *a, **k)
+
+    def fake_expm(afunc, tstep, v, *a, **k):
+        m = cur["mps"]
+        kind, shape = cur["kind"], cur["shape"]
+        ts = [np.asarray(t) for t in lib.tensors(m)]
+        q = m.qnidx
+        if kind in (1, 2) and cur["first"] is None:
+            raise RuntimeError("harness: cannot identify the operator site of this local step")
+        if kind == 1:
+            q = cur["first"]
+            left, right, site = ts[:q], ts[q + 1:], (q,)
+        elif kind == 2:
+            c0 = cur["first"]
+            left, right, site = ts[:c0], ts[c0 + 2:], (c0, c0 + 1)
+        else:
+            # bond matrix between the site that was just made an isometry and the new centre
+            b = q if m.to_right else q + 1          # the bond sits to the left of site b
+            left, right, site = ts[:b], ts[b:], ("bond", b)
+        log.append((kind, site, tstep))
+        v = np.asarray(v)
+        if identity:
+            return v, 1
+        cnt[0] += 1
+        x = ctx.array("x%d_" % cnt[0], shape, "real")
+        psi_x = _chain(left + [x] + right)
+        Hpsi = Hd.dot(psi_x)
+        ref = np.empty(shape, dtype=object if ctx.symbolic else complex)
+        for idx in np.ndindex(*shape):
+            u = np.zeros(shape, dtype=object if ctx.symbolic else float)
+            u[idx] = 1
+            e = _chain(left + [u] + right)
+            ref[idx] = sum((p_ * q_ for p_, q_ in zip(e, Hpsi)), 0)
+        y = np.asarray(afunc(x.ravel())).reshape(shape)
+        conds.append(ctx.eq(y, ref))
+        # an arbitrary output with the block structure of the input (the real propagator keeps it because the effective operator does)
+        out = ctx.array("k%d_" % cnt[0], v.shape, "real")
+        for idx in np.ndindex(*v.shape):
+            e_ = v[idx]
+            if (e_.const_value() == 0) if hasattr(e_, "const_value") else (e_ == 0):
+                out[idx] = e_
+        return out, 1
+
+    mpsmod.Environ, mpsmod.hop_expr, mpsmod.expm_krylov = env_wrapper, hop_wrapper, fake_expm
+    undo = None
+    if ctx.symbolic:
+        _, undo = stubs.lapack_contract(ctx, modules=("renormalizer.mps.svd_qn",))
+    try:
+        res = psi.evolve(H, dt, normalize=False)
+    finally:
+        mpsmod.Environ, mpsmod.hop_expr, mpsmod.expm_krylov = real_env, real_hop, real_expm
+        if undo:
+            undo()
+    name = P["method"]
+    ctx.check("%s: the input state is left as it was" % name, ctx.eq(lib.dense_of(psi), v0))
+    if identity:
+        ctx.check("%s with the identity as local propagator returns the state it started from" % name, ctx.eq(lib.dense_of(res), v0))
+        ctx.check("%s: labels of the result are valid" % name, lib.inv_relation(ctx, res))
+        return
+    ctx.check("%s: at every local step of the real sweep the effective operator = projection of H onto that tangent direction of the CURRENT state" % name, ctx.all(conds))
+    # time bookkeeping
+    fwd = dt * (-1j) / 2
+    site_t = {}
+    bond_t = {}
+    tconds = []
+    for kind, site, tstep in log:
+        tconds.append(ctx.any([ctx.eq(tstep, fwd), ctx.eq(tstep, fwd * -1)]))
+        if kind == 1:
+            site_t[site[0]] = site_t.get(site[0], 0) + tstep
+        elif kind == 2:
+            for s_ in site:
+                site_t[s_] = site_t.get(s_, 0) + tstep
+            bond_t[site[1]] = bond_t.get(site[1], 0) - tstep
+        else:
+            bond_t[site[1]] = bond_t.get(site[1], 0) + tstep
+    for i in range(n):
+        tconds.append(ctx.eq(site_t.get(i, 0), dt * (-1j)))
+    for b in range(1, n):
+        tconds.append(ctx.eq(bond_t.get(b, 0), dt * 1j))
+    ctx.check("%s: local time steps are -+ i dt/2; every site is propagated for -i dt in total and every bond for +i dt" % name, ctx.all(tconds))
+    ctx.check("%s: labels of the result are valid" % name, lib.inv_relation(ctx, res))
+
+
 def make_harness(P):
     op = P["op"]
 
@@ -116,6 +267,8 @@ def make_harness(P):
             return h_adaptive(ctx, P)
         if op == "dispatch":
             return h_dispatch(ctx)
+        if op == "tdvp_sweep":
+            return h_tdvp_sweep(ctx, P)
         n = P["n"]
         model = lib.make_model(tuple(["s"] * n))
         psi = sym_state(ctx, model, n, P["sbond"])
